@@ -13,7 +13,8 @@
 //	offbyone  one length +-1
 //	trunc     the document cut at every offset (short ones) / random offsets
 //	flip      one byte replaced (descriptor or payload)
-//	head      a lone hostile head (every kind x width x claimed length) into every destination
+//	head      a lone hostile head (every kind x width x claimed length; binc symbol definitions; lengths that wrap a
+//	          cursor backwards by 1..24 bytes inside a container claiming 2^64-1 values) into every destination
 //	long      containers holding more real elements than the pre-sizing cap max(1024, MaxInitLen), honest or
 //	          hostile claimed length, into fast-path and reflection slice / map destinations (zero-size element types too)
 //	bigscalar one string of 2..6 MB with its honest length, over []byte and every io.Reader transport
@@ -407,6 +408,32 @@ func loneHeads(c *ctx, perHead int) {
 						}
 						di := destFor(c, kind)
 						c.add(f, di, randOpts(c.r, f), in, "head:"+kindName(kind))
+					}
+				}
+			}
+		}
+		if f == hx.Cbor || f == hx.Simple || f == hx.Binc {
+			// lengths that would wrap a cursor backwards by a few bytes (c + n mod 2^64 = c - j): a container claiming
+			// 2^64-1 values whose first value is a byte string claiming 2^64-j bytes, on the walker paths (Raw, unknown
+			// struct field) and into interface{}: a reader that adds before it checks walks the same bytes for ever
+			_, dr := hx.DestByName("Raw")
+			_, ds := hx.DestByName("SkipDst")
+			_, di := hx.DestByName("iface")
+			for j := uint64(1); j <= 24; j++ {
+				for _, outer := range []int{hx.NArr, hx.NMap} {
+					if outer == hx.NMap && j%3 != 0 {
+						continue
+					}
+					in := append(hx.HeadBytes(f, outer, math.MaxUint64, 8, 0), hx.HeadBytes(f, hx.NBin, math.MaxUint64-j+1, 8, 0)...)
+					in = append(in, c.r.Bytes(c.r.Intn(4))...)
+					o := hx.Opts{}
+					if c.r.Chance(1, 3) {
+						o.IO, o.RBS = true, c.r.PickInt(0, 64)
+					}
+					c.add(f, dr, o, in, "head:wrap")
+					c.add(f, ds, o, append(hx.MapStr(f, "zz"), in...), "head:wrap")
+					if j%4 == 0 {
+						c.add(f, di, o, in, "head:wrap")
 					}
 				}
 			}
